@@ -46,8 +46,20 @@ type ReqSpecial struct {
 	ID  uuid.UUID
 	T   time.Time
 	I96 deprecated.Int96
-	D   int32 `parquet:"d,date"`
+	D   int32  `parquet:"d,date"`
 	E   string `parquet:"e,enum"`
+}
+
+// explicit integer logical types wider than the Go field (sign and zero
+// extension into the physical type)
+type IntTags struct {
+	A int32  `parquet:"a,int(64)"`
+	B int16  `parquet:"b,int(64)"`
+	C int8   `parquet:"c,int(32)"`
+	D uint32 `parquet:"d,uint(64)"`
+	E uint8  `parquet:"e,uint(32)"`
+	F int32  `parquet:"f,optional,int(64)"`
+	G *int32 `parquet:"g,int(64)"`
 }
 
 // `optional`-tagged non-pointer scalars: the zero value is null
@@ -218,7 +230,7 @@ type OptMap struct {
 type OGR struct {
 	G *struct {
 		Xs []int32
-		Y  int32 `parquet:"y,optional"`
+		Y  int32    `parquet:"y,optional"`
 		Zs []string `parquet:"zs,list"`
 	}
 	H int32
@@ -310,16 +322,16 @@ type LongStructElems struct {
 }
 
 type Wide struct {
-	A  int32             `parquet:"a,optional"`
-	B  *string           `parquet:"b"`
-	C  []int64           `parquet:"c,list"`
-	D  map[string]string `parquet:"d"`
-	E  Base
-	F  *Item
-	G  []Item
-	H  [16]byte `parquet:"h,optional"`
-	I  float64
-	J  bool `parquet:"j,optional"`
+	A int32             `parquet:"a,optional"`
+	B *string           `parquet:"b"`
+	C []int64           `parquet:"c,list"`
+	D map[string]string `parquet:"d"`
+	E Base
+	F *Item
+	G []Item
+	H [16]byte `parquet:"h,optional"`
+	I float64
+	J bool `parquet:"j,optional"`
 }
 
 // the narrow struct of the exhaustive null-run sweep
@@ -356,6 +368,7 @@ func catalogue() []*cat {
 	theCatalogue = []*cat{
 		mk[ReqScalars]("ReqScalars"),
 		mk[ReqSpecial]("ReqSpecial", noDeep),
+		mk[IntTags]("IntTags"),
 		mk[OptOne]("OptOne"),
 		mk[OptTwo]("OptTwo"),
 		mk[OptScalars]("OptScalars"),
